@@ -1,5 +1,5 @@
 (* Proofs about the request-hook model (Hooks.v): C19. *)
-From Coq Require Import List NArith Bool Arith Lia.
+From Coq Require Import List NArith ZArith Bool Arith Lia.
 Import ListNotations.
 From TarpcV Require Import Base Hooks.
 Local Open Scope N_scope.
@@ -7,9 +7,12 @@ Local Open Scope N_scope.
 Lemma result_eqb_refl x : result_eqb x x = true.
 Proof. destruct x; cbn; apply N.eqb_refl. Qed.
 
+Lemma ctx_eqb_refl c : ctx_eqb c c = true.
+Proof. unfold ctx_eqb. rewrite N.eqb_refl, Z.eqb_refl. reflexivity. Qed.
+
 Lemma expect_before_hit h c r tail :
   expect_before h c r (EBefore (b_id h) c r :: tail) = Some tail.
-Proof. unfold expect_before. rewrite Nat.eqb_refl, !N.eqb_refl. reflexivity. Qed.
+Proof. unfold expect_before. rewrite Nat.eqb_refl, ctx_eqb_refl, N.eqb_refl. reflexivity. Qed.
 
 (* ---- the monitor accepts every run of the model (any tree, any chain length) ------------ *)
 Lemma mon_blist_run l : forall c r tail,
@@ -28,7 +31,7 @@ Lemma mon_serve s : forall c r tail,
   mon s c r (fst (serve s c r) ++ tail) = Some (snd (serve s c r), tail).
 Proof.
   induction s as [h|h s IH|l s IH|s IH h|h s IH]; intros c r tail; cbn [serve mon].
-  - cbn [fst snd app]. rewrite Nat.eqb_refl, !N.eqb_refl. reflexivity.
+  - cbn [fst snd app]. rewrite Nat.eqb_refl, ctx_eqb_refl, N.eqb_refl. reflexivity.
   - destruct (before_eff h c r) as [c1 [x|]] eqn:E.
     + cbn [fst snd app]. rewrite expect_before_hit. reflexivity.
     + specialize (IH c1 r tail). destruct (serve s c1 r) as [evs x].
@@ -46,7 +49,7 @@ Proof.
     + specialize (IH c1 r (EAfter (a_id (ba_a h)) c1 (snd (serve s c1 r)) :: tail)).
       destruct (serve s c1 r) as [evs x]. cbn [fst snd] in *.
       cbn [app]. rewrite expect_before_hit, <- app_assoc. cbn [app].
-      rewrite IH, Nat.eqb_refl, N.eqb_refl, result_eqb_refl. reflexivity.
+      rewrite IH, Nat.eqb_refl, ctx_eqb_refl, result_eqb_refl. reflexivity.
 Qed.
 
 Lemma c19_monitor_holds : forall s c r, c19_ok (s, c, r) (serve s c r) = true.
@@ -196,4 +199,101 @@ Proof.
     change (EBefore (b_id (ba_b h)) c r :: evs ++ [EAfter (a_id (ba_a h)) c1 x])
       with ([EBefore (b_id (ba_b h)) c r] ++ evs ++ [EAfter (a_id (ba_a h)) c1 x]).
     rewrite !count_handler_app. cbn. lia.
+Qed.
+
+(* ---- the deadline travels with the context and decides nothing ---------------------------- *)
+(* a chain in front of the handler: whatever the deadline is (elapsed or not), if no hook fails
+   every hook runs and the handler is called with the context the chain left *)
+Lemma c19_handler_sees_chain_ctx : forall l h c r,
+  first_fail (blist_to_list l) c r = None ->
+  serve (BeforeList l (Base h)) c r
+  = (chain_events (blist_to_list l) c r ++ [EHandler (h_id h) (chain_ctx (blist_to_list l) c r) r],
+     handler_eff h (chain_ctx (blist_to_list l) c r) r).
+Proof.
+  intros l h c r H. pose proof (c19_before_order l (Base h) c r) as B. rewrite H in B. exact B.
+Qed.
+
+(* hooks that leave the deadline alone hand it on unchanged *)
+Lemma c19_chain_keeps_deadline : forall hs c r,
+  (forall h, In h hs -> b_deff h = DKeep) -> c_dl (chain_ctx hs c r) = c_dl c.
+Proof.
+  induction hs as [|h t IH]; intros c r H; [reflexivity|]. cbn [chain_ctx].
+  rewrite IH by (intros x Hx; apply H; right; exact Hx).
+  unfold before_eff, apply_ctx. cbn [fst c_dl snd]. rewrite (H h (or_introl eq_refl)). reflexivity.
+Qed.
+
+Lemma blind_before h c1 c2 r : blind_b h = true -> c_span c1 = c_span c2 ->
+  c_span (fst (before_eff h c1 r)) = c_span (fst (before_eff h c2 r))
+  /\ snd (before_eff h c1 r) = snd (before_eff h c2 r).
+Proof.
+  unfold blind_b, before_eff, apply_ctx. intros B E. cbn [fst snd c_span]. rewrite E. split; [reflexivity|].
+  destruct (b_deff h); [|discriminate]. destruct (b_feff h); cbn [apply_feff]; try reflexivity;
+    try discriminate. rewrite E. reflexivity.
+Qed.
+
+Lemma blind_after h c1 c2 x : blind_a h = true -> c_span c1 = c_span c2 ->
+  after_res h c1 x = after_res h c2 x.
+Proof.
+  unfold blind_a, after_res, after_eff. intros B E. cbn [snd].
+  destruct (a_deff h); [|discriminate]. destruct (a_reff h); cbn [apply_reff]; try reflexivity;
+    try discriminate. rewrite E. reflexivity.
+Qed.
+
+Lemma blind_handler h c1 c2 r : blind_h h = true -> c_span c1 = c_span c2 ->
+  handler_eff h c1 r = handler_eff h c2 r.
+Proof.
+  unfold blind_h, handler_eff. intros B E. destruct (h_eff h); try reflexivity; try discriminate.
+  rewrite E. reflexivity.
+Qed.
+
+Lemma blind_run_blist l : forall c1 c2 r, blind_l l = true -> c_span c1 = c_span c2 ->
+  map erase (fst (fst (run_blist l c1 r))) = map erase (fst (fst (run_blist l c2 r)))
+  /\ c_span (snd (fst (run_blist l c1 r))) = c_span (snd (fst (run_blist l c2 r)))
+  /\ snd (run_blist l c1 r) = snd (run_blist l c2 r).
+Proof.
+  induction l as [|h rest IH]; intros c1 c2 r B E.
+  - cbn. auto.
+  - cbn [blind_l] in B. apply andb_prop in B as [Bh Br]. cbn [run_blist].
+    destruct (blind_before h c1 c2 r Bh E) as [Es Ee].
+    destruct (before_eff h c1 r) as [d1 e1]. destruct (before_eff h c2 r) as [d2 e2].
+    cbn [fst snd] in *. subst e2. destruct e1 as [x|].
+    + cbn [fst snd map erase]. rewrite E. auto.
+    + specialize (IH d1 d2 r Br Es).
+      destruct (run_blist rest d1 r) as [[ev1 f1] o1]. destruct (run_blist rest d2 r) as [[ev2 f2] o2].
+      cbn [fst snd map erase] in *. destruct IH as [A [B' C]]. rewrite A, E. auto.
+Qed.
+
+Lemma c19_deadline_irrelevant : forall s c1 c2 r,
+  blind s = true -> c_span c1 = c_span c2 ->
+  map erase (fst (serve s c1 r)) = map erase (fst (serve s c2 r))
+  /\ snd (serve s c1 r) = snd (serve s c2 r).
+Proof.
+  induction s as [h|h s IH|l s IH|s IH h|h s IH]; intros c1 c2 r B E; cbn [blind] in B; cbn [serve].
+  - cbn [fst snd map erase]. rewrite E, (blind_handler h c1 c2 r B E). auto.
+  - apply andb_prop in B as [Bh Bs]. destruct (blind_before h c1 c2 r Bh E) as [Es Ee].
+    destruct (before_eff h c1 r) as [d1 e1]. destruct (before_eff h c2 r) as [d2 e2].
+    cbn [fst snd] in *. subst e2. destruct e1 as [x|].
+    + cbn [fst snd map erase]. rewrite E. auto.
+    + specialize (IH d1 d2 r Bs Es). destruct (serve s d1 r) as [ev1 x1].
+      destruct (serve s d2 r) as [ev2 x2]. cbn [fst snd map erase] in *.
+      destruct IH as [A C]. rewrite A, C, E. auto.
+  - apply andb_prop in B as [Bl Bs]. destruct (blind_run_blist l c1 c2 r Bl E) as [A [Es Ee]].
+    destruct (run_blist l c1 r) as [[ev1 d1] e1]. destruct (run_blist l c2 r) as [[ev2 d2] e2].
+    cbn [fst snd] in *. subst e2. destruct e1 as [x|]; [cbn [fst snd]; auto|].
+    specialize (IH d1 d2 r Bs Es). destruct (serve s d1 r) as [ev1' x1].
+    destruct (serve s d2 r) as [ev2' x2]. cbn [fst snd] in *. destruct IH as [A' C].
+    rewrite !map_app, A, A', C. auto.
+  - apply andb_prop in B as [Bs Ba]. specialize (IH c1 c2 r Bs E).
+    destruct (serve s c1 r) as [ev1 x1]. destruct (serve s c2 r) as [ev2 x2].
+    cbn [fst snd] in *. destruct IH as [A C]. subst x2.
+    rewrite !map_app, A. cbn [map erase]. rewrite E, (blind_after h c1 c2 x1 Ba E). auto.
+  - apply andb_prop in B as [B Bs]. apply andb_prop in B as [Bb Ba].
+    destruct (blind_before (ba_b h) c1 c2 r Bb E) as [Es Ee].
+    destruct (before_eff (ba_b h) c1 r) as [d1 e1]. destruct (before_eff (ba_b h) c2 r) as [d2 e2].
+    cbn [fst snd] in *. subst e2. destruct e1 as [x|].
+    + cbn [fst snd map erase]. rewrite E. auto.
+    + specialize (IH d1 d2 r Bs Es). destruct (serve s d1 r) as [ev1 x1].
+      destruct (serve s d2 r) as [ev2 x2]. cbn [fst snd] in *. destruct IH as [A C]. subst x2.
+      cbn [map erase]. rewrite !map_app, A. cbn [map erase].
+      rewrite E, Es, (blind_after (ba_a h) d1 d2 x1 Ba Es). auto.
 Qed.
